@@ -38,6 +38,7 @@ Record quantified (e : entity) : Prop := mkQd {
   q_main : nodup_bytes (sp_main_scope e) = true;
   q_service : nodup_bytes (sp_service_scope e) = true;
   q_topic : nodup_bytes (sp_topic_scope e) = true;
+  q_no_list : list_settings e = false;
   q_filters : match e_query e with
               | Some q => forallb (fun f => existsb (bytes_eqb f) (e_status e)) (q_default_status q)
               | None => true
@@ -50,7 +51,8 @@ Proof.
          | (_ && _) = true => apply andb_true_iff in H; let H' := fresh "Q" in destruct H as [H H']
          end.
   constructor; try assumption.
-  intros E. rewrite E in *. discriminate.
+  - intros E. rewrite E in *. discriminate.
+  - now apply negb_true_iff.
 Qed.
 
 (* ---- the walker accepts ----------------------------------------------------------------------- *)
@@ -312,7 +314,7 @@ Qed.
 (* ---- conversion succeeds ------------------------------------------------------------------------------ *)
 Theorem convert_accepts : forall e, quantified e -> exists fl, convert e = Ok (expand_with e fl).
 Proof.
-  intros e Q. destruct (expand_accepts e Q) as [fl Hx]. exists fl. unfold convert. rewrite Hx.
+  intros e Q. destruct (expand_accepts e Q) as [fl Hx]. exists fl. unfold convert. rewrite Hx, (q_no_list e Q).
   rewrite (closed_holds e fl Q), (fields_ok_holds e Q), (query_params_holds e Q), (command_params_holds e Q).
   reflexivity.
 Qed.
